@@ -37,11 +37,14 @@ func runDrain(seed uint64, scale int, out string, _ string) *summary {
 	//   V3  the writer is parked after loading "idle" while another writer runs a complete cycle;
 	//   V4  writes made from inside a Hottest / Coldest iteration (the view holds the eviction lock);
 	//   V5  the executor task has to wait for the eviction lock (held by an explicit CleanUp), then a
-	//       writer flags more work during its maintenance: it must unlock before it reschedules.
+	//       writer flags more work during its maintenance: it must unlock before it reschedules;
+	//   V6  the caller-runs fallback: the write buffer (shrunk to 4 for this cache) is full while the
+	//       eviction lock is held, a writer exhausts its retries and waits for the lock to run the
+	//       maintenance itself; during that run another write is recorded: the writer must hand over.
 	scripted := 60 * scale
 	stranded := 0
 	for sc := 0; sc < scripted && stranded < 6; sc++ {
-		variant := sc % 5
+		variant := sc % 6
 		var armed2, armed8, armed5 atomic.Int32
 		arrived5 := make(chan struct{}, 1)
 		release5 := make(chan struct{})
@@ -70,12 +73,33 @@ func runDrain(seed uint64, scale int, out string, _ string) *summary {
 			}
 		}
 		var atomicEv, asyncEv atomic.Int64
+		var xGoid atomic.Int64 // V6: the goroutine of the writer that falls back to running the maintenance
+		armed2x := &atomic.Int32{}
+		arrived2x, release2x := make(chan struct{}, 1), make(chan struct{})
+		if variant == 5 {
+			prev := otter.VerifHook
+			otter.VerifHook = func(id int) {
+				if id == 2 && armed2x.Load() == 1 && goid() == xGoid.Load() && armed2x.CompareAndSwap(1, 0) {
+					arrived2x <- struct{}{}
+					<-release2x
+					return
+				}
+				prev(id)
+			}
+		}
+		oldMaxWB := uint32(0)
+		if variant == 5 {
+			oldMaxWB = otter.VerifSetMaxWriteBufferSize(4)
+		}
 		c := otter.Must(&otter.Options[int, int]{
 			MaximumSize:      1 + sc%4,
 			OnAtomicDeletion: func(e otter.DeletionEvent[int, int]) { atomicEv.Add(1) },
 			OnDeletion:       func(e otter.DeletionEvent[int, int]) { asyncEv.Add(1) },
 			Logger:           &otter.NoopLogger{},
 		})
+		if variant == 5 {
+			otter.VerifSetMaxWriteBufferSize(oldMaxWB)
+		}
 		desc := fmt.Sprintf("scripted window %d variant V%d", sc, variant+1)
 		ok := true
 		waitCh := func(ch chan struct{}) bool {
@@ -161,6 +185,47 @@ func runDrain(seed uint64, scale int, out string, _ string) *summary {
 				armed2b.Store(0)
 				ok = false
 			}
+			close(doneB)
+		case 5:
+			// V6: the caller-runs fallback
+			otter.VerifLockEviction(c)
+			var wg sync.WaitGroup
+			for i := 0; i < 4; i++ {
+				wg.Add(1)
+				go func(i int) { defer wg.Done(); c.Set(10+i, i) }(i)
+			}
+			wg.Wait() // four events buffered, the buffer is full, nobody could take the lock
+			doneX := make(chan struct{})
+			go func() {
+				xGoid.Store(goid())
+				c.Set(99, 99) // a hundred refused offers, then performCleanUp: waits for the lock
+				close(doneX)
+			}()
+			blocked := false
+			for i := 0; i < 4000 && !blocked; i++ {
+				if g := xGoid.Load(); g != 0 {
+					if st, found := goroutineStates()[g]; found && lockWait(st) {
+						blocked = true
+					}
+				}
+				time.Sleep(100 * time.Microsecond)
+			}
+			armed2x.Store(1)
+			otter.VerifUnlockEviction(c)
+			if !blocked || !waitCh(arrived2x) {
+				armed2x.Store(0)
+				ok = false
+				select {
+				case <-doneX:
+				case <-time.After(2 * time.Second):
+				}
+				close(doneB)
+				break
+			}
+			// the writer is inside its own maintenance run, past the drain: one more write is recorded
+			c.Set(100, 100)
+			close(release2x)
+			waitCh(doneX)
 			close(doneB)
 		case 3:
 			// V4: a write made while an eviction-order view (Hottest / Coldest: SaveCacheTo iterates one)
